@@ -230,6 +230,46 @@ func runRT(c rtCase) pbt.Result {
 			if d := adEq(ad, &ab); d != "" {
 				return merge(res, pbt.Failf("%s BytesToAdvertisement differs in %s", cd.name, d))
 			}
+			// a decoded value belongs to the caller: editing it must not show in a later decode of the same block
+			ab.Addresses = append(ab.Addresses, "/ip4/9.9.9.9/tcp/9")
+			if len(ab.Addresses) > 1 {
+				ab.Addresses[0] = "/ip4/6.6.6.6/tcp/6"
+			}
+			ab.ContextID = append([]byte("edited-"), ab.ContextID...)
+			if len(ab.Metadata) > 0 {
+				ab.Metadata[0] ^= 0xff
+			}
+			if ab.ExtendedProvider != nil {
+				ab.ExtendedProvider.Override = !ab.ExtendedProvider.Override
+				for i := range ab.ExtendedProvider.Providers {
+					ab.ExtendedProvider.Providers[i].ID = "edited"
+					if len(ab.ExtendedProvider.Providers[i].Metadata) > 0 {
+						ab.ExtendedProvider.Providers[i].Metadata[0] ^= 0xff
+					}
+				}
+			}
+			ab2, err := schema.BytesToAdvertisement(l1.(cidlink.Link).Cid, stored)
+			if err != nil {
+				return merge(res, pbt.Failf("%s BytesToAdvertisement (second decode of the same block): %v", cd.name, err))
+			}
+			if d := adEq(ad, &ab2); d != "" {
+				return merge(res, pbt.Failf("%s: decoding the same block again after the first result was edited by the caller differs in %s", cd.name, d))
+			}
+			// the CID only selects the codec: other bytes handed in with the same CID are decoded, not remembered
+			sib := c.buildAd()
+			sib.ContextID = append([]byte("sibling-"), sib.ContextID...)
+			if sn, err := sib.ToNode(); err == nil {
+				var sbuf bytes.Buffer
+				if err := cd.enc(sn, &sbuf); err == nil {
+					sb, err := schema.BytesToAdvertisement(l1.(cidlink.Link).Cid, sbuf.Bytes())
+					if err != nil {
+						return merge(res, pbt.Failf("%s BytesToAdvertisement(sibling bytes): %v", cd.name, err))
+					}
+					if d := adEq(sib, &sb); d != "" {
+						return merge(res, pbt.Failf("%s: bytes of another advertisement decoded under a CID used just before give a value that differs from what was encoded in %s", cd.name, d))
+					}
+				}
+			}
 		}
 		return res
 	}
@@ -296,7 +336,7 @@ func merge(base, f pbt.Result) pbt.Result {
 
 func TestC13_RoundTrip(t *testing.T) {
 	pbt.Run(t, pbt.Config{Prop: "C13", Unit: "TestC13_RoundTrip",
-		Rule: "advertisements over all combinations of optional parts (previous link, extended providers present with 0..4 entries or absent), 0..5 addresses, context ID nil / 0..20 / exactly 64 B, metadata nil / small / any / exactly 1024 B, arbitrary signature bytes; entry chunks with 0..200 multihashes of mixed functions, with and without next link; both codecs; oracle: encode->decode gives a semantically equal value (nil == empty; optional parts keep presence), storing twice gives one CID, generic-prototype load == typed load == BytesTo..., Non-trivial: at least one optional part present and one absent/empty; distinct by case.",
+		Rule: "advertisements over all combinations of optional parts (previous link, extended providers present with 0..4 entries or absent), 0..5 addresses, context ID nil / 0..20 / exactly 64 B, metadata nil / small / any / exactly 1024 B, arbitrary signature bytes; entry chunks with 0..200 multihashes of mixed functions, with and without next link; both codecs; oracle: encode->decode gives a semantically equal value (nil == empty; optional parts keep presence), storing twice gives one CID, generic-prototype load == typed load == BytesTo...; a second BytesToAdvertisement of the same block after the caller edited the first result, and of a sibling advertisement's bytes under the same CID, give what was encoded; peer IDs in base58 or CIDv1 text form. Non-trivial: at least one optional part present and one absent/empty; distinct by case.",
 	}, genRT, runRT)
 }
 
